@@ -12,6 +12,7 @@ A case is JSON-able:
   arg     value of --content / --base-directory (bytes, may contain @S@) or None
   input   path of the torrent file relative to the sandbox (also for stdin: where it is kept)
 """
+import zlib
 import hashlib, json, os, re, shutil, stat, sys, tempfile, threading
 import lib
 
@@ -521,6 +522,14 @@ def run_case(ctx, case, tmp):
     before = snapshot(sandbox)
     orc = oracle(tb, sandbox, case["mode"], arg, case["input"])
     rc, out, err = ctx.imdl(argv, cwd=os.fsdecode(sandbox), stdin=tb if via_stdin(case["mode"]) else b"", timeout=120)
+    # the verdict is the exit status, with or without the global --quiet / -q in front of the subcommand (every third case; added
+    # after seeded change C03-14: the count of problems came from the routine that prints them, which returned early when
+    # standard error was switched off)
+    quiet = None
+    if zlib.crc32(tb) % 3 == 0:
+        flag = "--quiet" if zlib.crc32(tb) % 2 else "-q"
+        rq, oq, eq = ctx.imdl([flag] + argv, cwd=os.fsdecode(sandbox), stdin=tb if via_stdin(case["mode"]) else b"", timeout=120)
+        quiet = {"flag": flag, "rc": rq, "stderr_len": len(eq), "stdout_len": len(oq)}
     after = snapshot(sandbox)
     seed = case.get("seed", 0)
     line = "vcmd %s %s %s %s %s %s %d" % (
@@ -532,7 +541,7 @@ def run_case(ctx, case, tmp):
     # the step line `[2/2] ... Verifying pieces from ...` is written once the metainfo has been loaded (Verify::run):
     # whether the loader accepted, observable even when the verdict is a failure either way
     return {"case": case, "sandbox": sandbox, "argv": argv, "rc": rc, "stderr": err.decode("utf-8", "replace")[-400:],
-            "began": b"[2/2]" in err,
+            "began": b"[2/2]" in err, "quiet": quiet,
             "stdout_len": len(out), "oracle": orc, "unchanged": before == after, "model_line": line, "torrent": tb}
 
 
